@@ -19,8 +19,8 @@ theorem un_congr (rs : List (Res ℝ)) (f g : ℝ → ℝ) (h : ∀ a, f a = g a
 theorem isZero_real (a : ℝ) : isZero a = true ↔ a = 0 := by
   simp [isZero]
 
-/-- on the reals the two special cases of the engine (`Divide` with zero numerator,
-`PowerConstant` with zero exponent) agree with the mathematical value.  NB: for a zero
+/-- on the reals the special cases of the engine (`Divide` with zero numerator, `Times` with a zero
+factor, `PowerConstant` with zero exponent) agree with the mathematical value.  NB: for a zero
 *denominator* both sides use Lean's convention `x / 0 = 0`; the regular domain of property C01
 excludes it, see `C01.engine_value`. -/
 theorem semEngine_eq_semMath (n : Node ℝ) (env : Env ℝ) (rs : List (Res ℝ)) :
@@ -38,6 +38,23 @@ theorem semEngine_eq_semMath (n : Node ℝ) (env : Env ℝ) (rs : List (Res ℝ)
         | false => rfl
         | true => exact absurd ((isZero_real a).mp hz) h
       simp [this]
+  case times =>
+    simp only [semEngine, semMath, semCommon]
+    apply bin_congr
+    intro a b
+    by_cases h : a = 0
+    · simp [h]
+    · have ha : isZero a = false := by
+        cases hz : isZero a with
+        | false => rfl
+        | true => exact absurd ((isZero_real a).mp hz) h
+      by_cases h2 : b = 0
+      · simp [h2]
+      · have hb : isZero b = false := by
+          cases hz : isZero b with
+          | false => rfl
+          | true => exact absurd ((isZero_real b).mp hz) h2
+        simp [ha, hb]
   case powConst =>
     simp only [semEngine, semMath, semCommon]
     apply un_congr
